@@ -16,5 +16,5 @@ CONSTANTS
 SPECIFICATION MCSpec
 CONSTRAINT RBound
 VIEW RView
-INVARIANT XDeltasBoundedOnDisk
+INVARIANT XClientCatchesUp
 CHECK_DEADLOCK FALSE
